@@ -4,6 +4,7 @@
   the model never defaults.
 -/
 import FB.Wire
+import FB.Conc
 open FB FB.Wire
 open Lean (Json)
 
@@ -175,6 +176,51 @@ where
   parseJsonT (j : Lean.Json) : Except String FB.Json := do
     toJsonT (← parseVal j)
 
+/-- all interleavings of threads 0..n-1 doing `steps[i]` steps each -/
+partial def interleavings (remaining : List Nat) : List (List Nat) :=
+  if remaining.all (· == 0) then [[]]
+  else
+    (List.range remaining.length).flatMap fun i =>
+      match remaining[i]? with
+      | some (k+1) => (interleavings (remaining.set i k)).map (i :: ·)
+      | _ => []
+
+def dedupStr (xs : List String) : List String :=
+  xs.foldl (fun acc x => if acc.contains x then acc else acc ++ [x]) []
+
+/-- exhaustive enumeration of a protocol model: the set of outcomes over all schedules -/
+def runConc (j : Lean.Json) : Except String Lean.Json := do
+  let proto ← (← j.getObjVal? "proto").getStr?
+  let n ← getNat (← j.getObjVal? "threads")
+  match proto with
+  | "P1" =>
+    let scheds := interleavings (List.replicate n 3)
+    let outs := scheds.map fun sc =>
+      let s := FB.Conc.P1.run {} sc
+      let ran := ((List.range n).filter fun i => s.pc i == .done).length
+      let rej := ((List.range n).filter fun i => s.pc i == .rejected).length
+      s!"executions={s.executions} done={ran} rejected={rej}"
+    return Json.mkObj [("schedules", .num (.fromNat scheds.length)), ("outcomes", .arr ((dedupStr outs).map .str).toArray)]
+  | "P2" =>
+    let scheds := interleavings (List.replicate n 3)
+    let outs := scheds.map fun sc =>
+      let s := FB.Conc.P2.run {} sc
+      s!"created={s.created} count={s.count} exists={s.dirExists}"
+    return Json.mkObj [("schedules", .num (.fromNat scheds.length)), ("outcomes", .arr ((dedupStr outs).map .str).toArray)]
+  | "P3" =>
+    -- thread 0 = owner (1 step), threads 1..n-1 = stragglers (3 steps)
+    let scheds := interleavings (1 :: List.replicate (n - 1) 3)
+    let outs := scheds.map fun sc =>
+      let s := FB.Conc.P3.run {} sc
+      let show1 := match s.pc 1 with
+        | .appended => "completed-in-record"
+        | .rejectedAtEntry => "fenced-no-effect"
+        | .rejectedAtAppend => if s.effectsAfterClose.contains 1 then "fenced-after-effect-after-close" else "fenced-after-effect-before-close"
+        | _ => "unfinished"
+      s!"{show1} inrecord={s.record.contains 1}"
+    return Json.mkObj [("schedules", .num (.fromNat scheds.length)), ("outcomes", .arr ((dedupStr outs).map .str).toArray)]
+  | p => throw s!"unknown protocol {p}"
+
 def handle (line : String) : Lean.Json :=
   match Lean.Json.parse line with
   | .error e => Json.mkObj [("bad-op", .str e)]
@@ -184,6 +230,7 @@ def handle (line : String) : Lean.Json :=
       match ← (← j.getObjVal? "kind").getStr? with
       | "hist" => runHist j
       | "json" => runJsonUnit j
+      | "conc" => runConc j
       | k => throw s!"unknown kind {k}"
     match r with
     | .ok out => out.setObjVal! "id" id
